@@ -542,9 +542,31 @@ theorem pyAny_ok {α : Type} (f : α → PyR Bool) (g : α → Bool) :
     · simp only [Bool.false_or]; exact ih (fun y hy => h y (List.mem_cons_of_mem _ hy))
     · rfl
 
-theorem has_overlap_tie (l : Loc) (hv : blocksValid l.blocks = true) (b : Blk) (hb : b.1 ≤ b.2) (sb : Strand) :
-    Agree id (Gen.CompoundInterval_has_overlap (toCI l) (si b sb))
-      (Model.hasOverlap (.compound l) (.single b sb) false false) := by
+/-- `SingleInterval.has_overlap` (parent-less operands, `other` a SingleInterval, full_span = False): the strand gate,
+    then the overlap kernel; never raises -/
+theorem si_has_overlap (a b : Blk) (ha : a.1 ≤ a.2) (hb : b.1 ≤ b.2) (sa sb : Strand) (ms : Bool) :
+    Gen.SingleInterval_has_overlap (si a sa) (si b sb) ms
+      = .ok (if ms = true ∧ sa ≠ sb then false else Model.overlapKernel a b) := by
+  unfold Gen.SingleInterval_has_overlap
+  rw [Ties.overlap a b ha hb sa sb]
+  simp only [si]
+  split <;> simp [*]
+
+theorem si_has_overlap_tie (a b : Blk) (ha : a.1 ≤ a.2) (hb : b.1 ≤ b.2) (sa sb : Strand) (ms : Bool) :
+    Agree id (Gen.SingleInterval_has_overlap (si a sa) (si b sb) ms)
+      (Model.hasOverlap (.single a sa) (.single b sb) ms false) := by
+  unfold Agree
+  rw [si_has_overlap a b ha hb sa sb ms]
+  by_cases h : ms = true ∧ sa ≠ sb
+  · rw [if_pos h]
+    simp only [Model.hasOverlap, view, id, if_pos h]; rfl
+  · rw [if_neg h]
+    simp only [Model.hasOverlap, view, id, if_neg h]; rfl
+
+theorem has_overlap_tie (l : Loc) (hv : blocksValid l.blocks = true) (b : Blk) (hb : b.1 ≤ b.2) (sb : Strand)
+    (ms : Bool) :
+    Agree id (Gen.CompoundInterval_has_overlap (toCI l) (si b sb) ms)
+      (Model.hasOverlap (.compound l) (.single b sb) ms false) := by
   unfold Gen.CompoundInterval_has_overlap Agree
   have hvalid : ∀ a ∈ l.blocks, a.1 ≤ a.2 := by
     intro a ha
@@ -559,15 +581,20 @@ theorem has_overlap_tie (l : Loc) (hv : blocksValid l.blocks = true) (b : Blk) (
         | head => exact hc
         | tail _ h' => exact ih hv' h'
     exact this _ hv ha
-  rw [pyAny_ok _ (fun s => Model.overlapKernel (siBlk s) b)]
+  rw [pyAny_ok _ (fun s => if ms = true ∧ l.strand ≠ sb then false else Model.overlapKernel (siBlk s) b)]
   · unfold toCI Model.hasOverlap
-    simp [view, List.any_map, Function.comp_def, siBlk_si]
-    rfl
+    by_cases hm : ms = true ∧ l.strand ≠ sb
+    · have hany : ∀ (xs : List Blk), (xs.any fun _ => false) = false := by
+        intro xs; induction xs <;> simp_all
+      simp [view, hm, List.any_map, Function.comp_def, hany]
+      rfl
+    · simp [view, hm, List.any_map, Function.comp_def, siBlk_si]
+      rfl
   · intro x hx
     unfold toCI at hx
     simp only [List.mem_map] at hx
     obtain ⟨a, ha, rfl⟩ := hx
-    rw [Ties.overlap a b (hvalid a ha) hb, siBlk_si]
+    rw [si_has_overlap a b (hvalid a ha) hb, siBlk_si]
 
 /-! ### _combine_blocks / optimize_blocks / optimize_and_combine_blocks -/
 
